@@ -10,6 +10,7 @@ package x509
 var (
 	VerifCtlParse    func(der []byte) (*Certificate, error)
 	VerifCtlBuildTBS func(tbs []byte, preIssuer *Certificate) ([]byte, error)
+	VerifCtlRemoveSCT func(tbs []byte) ([]byte, error)
 )
 
 //verif:stub github.com/google/certificate-transparency-go/x509.ParseCertificate dir=. files=serialization.go as=x509.VerifStubParseCertificate
@@ -19,3 +20,6 @@ func VerifStubParseCertificate(der []byte) (*Certificate, error) { return VerifC
 func VerifStubBuildPrecertTBS(tbs []byte, preIssuer *Certificate) ([]byte, error) {
 	return VerifCtlBuildTBS(tbs, preIssuer)
 }
+
+//verif:stub github.com/google/certificate-transparency-go/x509.RemoveSCTList dir=. files=serialization.go as=x509.VerifStubRemoveSCTList
+func VerifStubRemoveSCTList(tbs []byte) ([]byte, error) { return VerifCtlRemoveSCT(tbs) }
